@@ -54,7 +54,7 @@ def glit(src, depth=0):
         return ('f', gname(src), tuple(glit(src, depth + 1) for _ in range(n)))
     items = [glit(src, depth + 1) for _ in range(src.n(4))]
     if items and src.n(4) == 3:
-        return mklist(items, ('v', 'T%d' % src.n(2)))        # [H|T] pattern
+        return mklist(items, ('v', src.pick(['T0', 'T1', 'U_1', 'U_2', 'U_3', 'UATOM_NIL', 'UTrue'])))        # [H|T] pattern
     return mklist(items)
 
 
@@ -70,7 +70,7 @@ def lit_src(t, src, names):
     if t[0] == 'v':
         if t[1].startswith('_'):
             return '_'
-        return names.setdefault(t, 'V%s' % t[1])
+        return names.setdefault(t, t[1][1:] if t[1].startswith('U') else 'V%s' % t[1])      # U_1 is the named variable _1
     if t[0] == 'a':
         return atom_src(t[1], src)
     if t[0] == 'i':
@@ -83,7 +83,7 @@ def lit_src(t, src, names):
             cur = cur[2][1]
         if cur == NIL:
             return '[' + ', '.join(lit_src(x, src, names) for x in items) + ']'
-        if cur[0] == 'v' and not cur[1].startswith('_'):
+        if cur[0] == 'v' and not cur[1].startswith('_'):   # (anonymous variables have ids _N and print as _)
             return '[' + ','.join(lit_src(x, src, names) for x in items) + ' | ' + lit_src(cur, src, names) + ']'
     name = atom_src(t[1], src)
     if name == '[]':
